@@ -406,8 +406,8 @@ def fam_compare(tier, seed, extra=()):
     for i, (a, b) in enumerate(grid_pairs([0, 1, -1, MIN, MAX, 7])):
         for op in ("<", "<=", ">", ">=", "==", "!="):
             out.append(Case(f"notcmp/{op}/{i}", f"f := (x: int, y: int) -> bool {{ return !(x {op} y) }}; f(a, b)", not int_op(op, a, b), {"a": a, "b": b}))
-    pairs = grid_pairs(SMALL_GRID if tier == "quick" else INT_GRID, [e for e in extra if len(e) == 2])
-    fpairs = grid_pairs(FLOAT_GRID)
+    pairs = grid_pairs((SMALL_GRID if tier == "quick" else INT_GRID) + [(1 << 53) + 1, 1 << 53, MAX - 1], _typed_extras(extra, int))
+    fpairs = grid_pairs(FLOAT_GRID, _typed_extras(extra, float))
     for op in (">", ">=", "<", "<="):
         out += binop_cases(op, pairs)
         out += binop_cases(op, fpairs, kind="float")
@@ -447,11 +447,24 @@ def fam_float(tier, seed, extra=()):
     return out + [c for c in fam_unary(tier, seed) if c.id.startswith("fneg/")]
 
 
+def _typed_extras(extra, typ):
+    """operand tuples handed over by a K counterexample, restricted to one scalar type"""
+    out = []
+    for e in extra:
+        vals = [x for x in e if isinstance(x, typ) and not isinstance(x, bool)] if typ is not bool else [x for x in e if isinstance(x, bool)]
+        for i in range(0, len(vals) - 1, 2):
+            out.append((vals[i], vals[i + 1]))
+        if len(vals) == 1:
+            out.append((vals[0], vals[0]))
+    return out
+
+
 def fam_eq(tier, seed, extra=()):
     out = []
-    pairs = grid_pairs(SMALL_GRID)
+    pairs = grid_pairs(SMALL_GRID + [(1 << 53) + 1, 1 << 53, MAX - 1], _typed_extras(extra, int))
     out += binop_cases("==", pairs) + binop_cases("!=", pairs)
-    out += binop_cases("==", grid_pairs(FLOAT_GRID), kind="float") + binop_cases("!=", grid_pairs(FLOAT_GRID), kind="float")
+    fp = grid_pairs(FLOAT_GRID, _typed_extras(extra, float))
+    out += binop_cases("==", fp, kind="float") + binop_cases("!=", fp, kind="float")
     out += binop_cases("==", [(a, b) for a in (True, False) for b in (True, False)], kind="bool")
     fixed = [
         ('"ab" == "ab"', True), ('"ab" == "abc"', False), ('"ab" != "ab"', False), ("() == ()", True),
@@ -518,6 +531,9 @@ def fam_eq_array(tier, seed, extra=()):
         ("[1, 2.5, 2]~ ? (x: int | float) -> bool { return x == 1 || x == 2 } $]", "filter + collect"),
         ("[2, 4]~ @ (x: int) -> int { return x / 2 } $]", "map + collect"),
         ("[1; 1] + [2; 1]", "repeat + concatenation"), ("[] + [1, 2]", "empty + literal"),
+        ("([1, 2, \"s\"]~ \\ (x: int | string) -> bool { return match x { i: int => true, => false, } }).0", "partition of int|string"),
+        ("([1, 2, 2.5]~ \\ (x: int | float) -> bool { return match x { i: int => true, => false, } }).0", "partition of int|float"),
+        ("[1, 2, true][:2]", "slice of int|bool array"), ("[1, 2, ()][0:2]", "slice of int|() array"),
         ("[1.5, 1, 2][1:]", "slice of a wider-typed array"),
     ]
     out = []
@@ -588,6 +604,14 @@ def fam_index(tier, seed, extra=()):
         # consistency of len and indexing
         if n:
             out.append(Case(f"len/at/{k}", f"s := {lit}; s[std.len(s) - 1] == s[-1]", True, mode="std"))
+    # sequences whose static type is a union
+    out.append(Case("at/union/0", "f := (s: string | [int], i: int) -> any { return s[i] }; (f(\"héllo\", 1), f([1, 2, 3], 1), f(\"héllo\", 0 - 1), f([1, 2, 3], 0 - 3))",
+                    ("é", 2, "o", 1)))
+    out.append(Case("at/union/1", "f := (s: [int] | [float], i: int) -> any { return s[i] }; (f([1, 2], 1), f([1.5], 0))", (2, 1.5)))
+    out.append(Case("at/union/2", "f := (s: string | [int] | [string]) -> any { return s[0] }; (f(\"ab\"), f([7]), f([\"x\"]))", ("a", 7, "x")))
+    out.append(Case("at/union/err", "f := (s: string | [int], i: int) -> any { return s[i] }; f(\"ab\", 2)", Err(E_INDEX)))
+    out.append(Case("slice/union/0", "f := (s: string | [int]) -> any { return s[1:] }; (f(\"héllo\"), f([1, 2, 3]))", ("éllo", [2, 3])))
+    out.append(Case("len/union/0", "f := (s: string | [int]) -> int { return std.len(s) }; (f(\"héllo\"), f([1, 2, 3]))", (5, 3), mode="std"))
     return out + literal_index_cases()
 
 
@@ -731,6 +755,10 @@ def fam_order(tier, seed, extra=()):
     out.append(Case("order/slice_literal", PRE + "r := [t(1), t(2), t(3)][1:]; (r, *log)", ([2, 3], 123)))
     out.append(Case("order/compound_target_once", PRE + "cells := [mut 10, mut 20]; nxt := (k: int) -> int { log = *log * 10 + k; return k - 1 }; "
                     "r := (cells[nxt(1)] -= t(2)); (r, *cells[0], *cells[1], *log)", (8, 8, 20, 12)))
+    out.append(Case("order/discarded_statements", PRE + "(t(1), t(2)); [t(3), t(4)]; t(5) + 0; struct{a := t(6)}; (t(7), 0).1; *log", 1234567))
+    out.append(Case("order/discarded_statements/fn", PRE + "f := () -> int { (t(1), t(2)); [t(3)]; t(4) * 0; { (t(5), 1) }; return *log }; f()", 12345))
+    out.append(Case("order/discarded_statements/mod", PRE + "m := mod { (t(1), t(2)); [t(3)] }; *log", 123))
+    out.append(Case("order/discarded_in_branch", PRE + "f := (b: bool) -> int { if b { (t(1), t(2)); 0 } else { [t(3)]; 0 }; return *log }; (f(true), f(false))", (12, 123)))
     # only the chosen branch
     out.append(Case("order/if/true", PRE + "r := if tb(1, true) t(2) else t(3); (r, *log)", (2, 12)))
     out.append(Case("order/if/false", PRE + "r := if tb(1, false) t(2) else t(3); (r, *log)", (3, 13)))
@@ -824,6 +852,18 @@ def fam_control(tier, seed, extra=()):
     c("while/condition_side_effect_count", "c := mut 0; i := mut 0; test := () -> bool { c += 1; return *i < 3 }; while test() { i += 1; if *i == 2 { continue } }; (*i, *c)", (3, 4))
     c("whileset/continue_last", "vals := [1, 2, 3.5]; i := mut 0; n := mut 0; while x: int = vals[*i] { i += 1; if x == 2 { continue } n += 1 }; (*i, *n)", (2, 1))
     c("for/continue_last", "n := mut 0; for x in [1, 2, 3]~ { if x == 3 { continue } n += x }; *n", 3)
+    c("match/value_arm_array_provenance", "f := (v: any) -> int { return match v { ([]) => 0, ([1, 2]) => 12, => 99, } }; "
+      "(f([0; 0]), f([1][1:]), f([1] + [2]), f([0, 1, 2][1:]), f([3]))", (0, 0, 12, 12, 99))
+    c("match/value_arm_in_loop", "i := mut 0; loop { i += 1; done := match [*i; 0] { ([]) => true, => false, }; if done && *i >= 4 { break } if *i > 10 { break } }; *i", 4)
+    c("match/value_arm_tuple", "f := (v: (int, [int])) -> int { return match v { ((1, [])) => 1, => 2, } }; (f((1, [0; 0])), f((1, [5])))", (1, 2))
+    c("place/break_in_mod_in_loop", "i := mut 0; loop { i += 1; m := mod { if *i > 2 { break } }; if *i > 10 { break } }; *i", 3)
+    c("place/continue_in_mod_in_loop", "i := mut 0; n := mut 0; while *i < 4 { i += 1; m := mod { if *i == 2 { continue } }; n += 1 }; (*i, *n)", (4, 3))
+    c("place/return_in_mod_in_fn", "f := (x: int) -> int { m := mod { if x > 0 { return 1 } }; return 2 }; (f(1), f(0))", (1, 2))
+    c("place/ifset_without_else_may_be_void", "f := (v: int | float) -> int { x := if n: int = v { n }; return match x { k: int => k, } }; f(1)", Err("MatchNotCovered"))
+    c("place/ifset_without_else_void_value", "f := (v: int | float) -> any { x := if n: int = v { n }; return x }; (f(1), f(1.5))", (1, None))
+    c("place/if_without_else_may_be_void", "f := (b: bool) -> int { x := if b { 1 }; return match x { k: int => k, } }; f(true)", Err("MatchNotCovered"))
+    c("place/missing_return_in_ifset", "f := (v: int | float) -> int { if n: int = v { return n } }; f(1)", Err("MissingReturn"))
+    c("place/missing_return_in_if", "f := (b: bool) -> int { if b { return 1 } }; f(true)", Err("MissingReturn"))
     c("block/value", "x := { 1; 2; 3 }; y := { }; (x, y)", (3, None))
     c("block/last_is_set", "x := { a := 5 }; x", 5)
     return out
@@ -855,7 +895,8 @@ def fam_fold(tier, seed, extra=()):
     pairs = grid_pairs(SMALL_GRID, [e for e in extra if len(e) == 2 and all(isinstance(x, int) for x in e)])
     for op in ("+", "-", "*", "/", "%", "<<", ">>", "&", "|", "^", "<", "<=", ">", ">=", "==", "!="):
         out += [c for c in binop_cases(op, pairs, tag="fold/") if "/compound/" not in c.id]
-    out += binop_cases("/", grid_pairs([0.0, -0.0, 1.0, math.inf, math.nan]), kind="float", tag="fold/")
+    for op in ("+", "-", "*", "/"):
+        out += binop_cases(op, grid_pairs([0.0, -0.0, 1.0, -1.0, 3.5, math.inf, -math.inf, math.nan]), kind="float", tag="fold/")
     # early errors only for operations that fail whenever evaluated
     # an operation on constants that fails whenever evaluated MAY be reported at parse time (permitted, not
     # required): the never-called function either makes parsing fail with that error or is simply never run
@@ -895,6 +936,7 @@ TWIN_TEMPLATES = [
     ("ifset_mismatch_constant", "c := mut 0; r := if x: float | string = A { c += 1; 1 } else { c += 10; 2 }; (r, *c)"),
     ("whileset_wider_type_constant", "n := mut 0; while x: int | string = A { n += 1; if *n >= 3 { break } }; *n"),
     ("float_two_constants_after_runtime", "m := mut 0.1; r := *m + FA + FB; q := *m * FB * FA; m = 1e16; (r, q, *m + FA + FA, *m - FB - FB, *m / FA / FB)"),
+    ("float_signed_zero_identities", "z := mut (FA - FA); n := mut (0.0 * (0.0 - 1.0)); (0.0 - *z, *z - 0.0, 0.0 + *z, *z + 0.0, *z * 1.0, 1.0 * *z, 0.0 - *n, *n + 0.0, 0.0 + *n, *n * 1.0, (FA - FA) - *z, *n - (FB - FB))"),
     ("float_constants_before_runtime", "m := mut 0.1; (FA + FB + *m, FA * FB * *m, FA - FB - *m)"),
     ("int_two_constants_after_runtime", "m := mut A; (*m + B + C, *m - B - C, *m * B * C, (*m + B) * C)"),
     ("index", "arr := [A, B, C]; (arr[0], arr[2 - 3], arr[1] + arr[0])"),
